@@ -131,7 +131,8 @@ def gen_tfilter(tier, rng):
     if tier == "thorough":
         lens += list(range(640, 700)) + list(range(480, 530)) + list(range(4050, 4110))
     for ln in lens:
-        es = ["Ex%02x:%d:1:p%d.%d.1" % (0x61 + k, 50 - k, ln, k) for k in range(7)]
+        # incompressible values: the block size on disk is then a function of the value length
+        es = ["Ex%02x:%d:1:r%d.%d" % (0x61 + k, 50 - k, ln, 7 * k + 1) for k in range(7)]
         cases.append("tf%d 64:1 %s" % (i, " ".join(es)))
         i += 1
     return cases
